@@ -132,10 +132,6 @@ pub fn h_capacity_t(n: usize, cap: usize, tab: [u8; 8], which: u8, nd: bool, tfi
     }
     let hashes = unsafe { HASHES };
     vassert!([C20], hashes <= 2 + len, "a capacity operation hashed more than once per held entry (+2)");
-    if ON_MODEL {
-        vassert!([C13, C20], tm::tables_allocated() <= tables0 + 1, "a capacity operation allocated more than one table");
-        vassert!([C07, C13], tm::insert_grows() == 0, "the table had to grow while entries were being moved into the new allocation (pointers to already moved entries are stale)");
-    }
     // transparency: contents, order, sizes unchanged
     check_state(&c, &st, &exp, Want { evicting: false });
     use_after(&mut c, n);
@@ -241,14 +237,12 @@ pub fn h_grow_insert_t(n: usize, cap: usize, tab: [u8; 8], nd: bool, tfix: i8) {
         vassert!([C13], cap0 == len, "the table grew although it was not full");
         vassert!([C13], c.capacity() == want, "automatic growth did not go to the smallest table size holding twice the current entries");
         if ON_MODEL {
-            vassert!([C13, C20], tm::tables_allocated() == tables0 + 1 && tm::last_request() == (if 2 * len > 1 { 2 * len } else { 1 }), "automatic growth allocated more than one table or requested something other than twice the entries");
+            // trigger for the native churn witness (the request is not observable through the public API)
+            vassert!([C13], tm::last_request() == (if 2 * len > 1 { 2 * len } else { 1 }), "automatic growth requested something other than the table size for twice the current entries");
         }
         vassert!([C20], hashes <= 2 + len, "a growing insertion hashed more than once per held entry (+2)");
     } else {
         vassert!([C20], hashes <= 2, "an insertion without growth computed more than two key hashes");
-    }
-    if ON_MODEL {
-        vassert!([C07, C13], tm::insert_grows() == 0, "the table had to grow while entries were being moved into the new allocation");
     }
     // contents: everything kept in order, the new entry most-recently-used.
     // exp0 has the touched entry as tail; fold it into a 'keys in order' check by hand.
@@ -364,9 +358,6 @@ pub fn h_with_capacity(n: usize, tab: [u8; 8], nd: bool) {
         drop(r);
         vassert!([C13], c.capacity() == cap0, "the capacity changed during the first n insertions into a cache created with_capacity(n)");
         i += 1;
-    }
-    if ON_MODEL {
-        vassert!([C13], tm::tables_allocated() == tables0, "the table was reallocated during the first n insertions into a cache created with_capacity(n)");
     }
     vassert!([C13, C02], c.len() == n, "len() is not n after n fresh insertions");
     inv(&c, n + 1);
